@@ -219,7 +219,19 @@ Definition py_issubset (a b : list nat) : bool := forallb (fun x => memb x b) a.
 (* visited[0] on a possibly empty list: 0 stands for the IndexError case (never reached with itr >= 1) *)
 Definition py_head0 (l : list nat) : nat := hd 0 l.
 
-(* copula.percent_point(np.array([y]), np.array([unis[v]]))[0] followed by the clip
-   min(max(., EPSILON), 0.99): the model's [SPpf] *)
-Definition py_ppf_clipped (c : copula_id) (y v : sterm) : sterm := SPpf (fst c) (snd c) y v.
+(* l[k] for an int k that may be -1 (Python: the last element) *)
+Definition py_index_int {A : Type} (l : list A) (k : pyint) : option A :=
+  match k with Some j => nth_error l j | None => nth_error l (length l - 1) end.
+
+(* range(n - 1, -1, -1) *)
+Definition py_range_down (n : nat) : list nat := rev (seq 0 n).
+
+(* unis[i] ; np.array([x]) of one entry is the entry *)
 Definition py_unis (i : nat) : sterm := SUni i.
+(* copula.percent_point(np.array([y]), np.array([v]))[0], before the clip *)
+Inductive rawterm := RPpf (c : copula_id) (y v : sterm).
+Definition py_percent_point (c : copula_id) (y v : sterm) : rawterm := RPpf c y v.
+(* min(max(r, EPSILON), 0.99): the model's [SPpf] stands for the clipped value (the numeric meaning of the clip is
+   Spec.VineSampleR.clip_s, bridged to the generated line by C17_bridge_sample_clip in Props/C17.v) *)
+Definition py_sample_clip (r : rawterm) : sterm :=
+  match r with RPpf c y v => SPpf (fst c) (snd c) y v end.
